@@ -155,6 +155,10 @@ def generate(rng, tier):
         ops = ops[:pos] + tail + ops[pos:]
         if rng.random() < 0.6:
             init["nan"]["kind"] = "ragged"
+    if core.rare(rng, 0.004, phase=91) and init["shape"][0] * init["shape"][1] <= 4096:
+        # the plotting helpers are read-only observers too (drawn off-screen); rare because importing the
+        # plotting library in the run's process is slow
+        ops.insert(rng.randint(0, len(ops)), {"op": "observe", "what": rng.choice(["slices_plot", "plot2d"])})
     return {"prop": PROP, "tier": tier, "config": cfg, "init": init, "ops": ops}
 
 
@@ -339,6 +343,22 @@ def execute(plan):
                         str(ifg)
                     elif what == "slope":
                         ifg.slope()
+                    elif what in ("slices_plot", "plot2d"):
+                        import os as _os
+                        _os.environ["MPLBACKEND"] = "Agg"
+                        import matplotlib
+                        matplotlib.use("Agg")
+                        from matplotlib import pyplot as _plt
+                        try:
+                            if what == "plot2d":
+                                ifg.plot2d()
+                            else:
+                                sl = ifg.slices()
+                                sl.plot("x", invert_x=True)
+                                sl.plot(["x", "y"], invert_x=True)
+                                sl.plot("azavg")
+                        finally:
+                            _plt.close("all")
                     elif what == "exact_x":
                         ifg.exact_x(0.0), ifg.exact_x(np.array([0.0, 0.25 * float(ifg.dx or 1.0)]))
                     elif what == "exact_y":
